@@ -153,6 +153,10 @@ enum Pres {
     Bits { k: usize, junk: u8 },
     Vector,
     Str,
+    /// a vector of mixed pieces that add up to the same bytes: whole-byte integers, then the next
+    /// byte as two bit-strings of `cut` and 8-`cut` bits (slices of a buffer with junk around them),
+    /// then the rest as a nested vector of integers
+    Pieces { cut: usize },
 }
 impl Pres {
     fn class(self) -> &'static str {
@@ -162,8 +166,18 @@ impl Pres {
             Pres::Bits { .. } => "bitstr-unaligned",
             Pres::Vector => "vector",
             Pres::Str => "string",
+            Pres::Pieces { .. } => "vector-of-pieces",
         }
     }
+}
+
+/// (integers before the split byte, the split byte, the rest)
+fn pieces_of(bytes: &[u8]) -> Option<(&[u8], u8, &[u8])> {
+    if bytes.is_empty() {
+        return None;
+    }
+    let lead = if bytes.len() >= 2 { 1 } else { 0 };
+    Some((&bytes[..lead], bytes[lead], &bytes[lead + 1..]))
 }
 
 /// buffer: k junk bits, the bytes, junk up to the next byte boundary plus one junk byte
@@ -198,6 +212,23 @@ fn operand(bytes: &[u8], p: Pres) -> Option<Cell> {
             Some(Cell::from(v))
         }
         Pres::Str => std::str::from_utf8(bytes).ok().map(|s| Cell::from(s.to_string())),
+        Pres::Pieces { cut } => {
+            let (lead, b, rest) = pieces_of(bytes)?;
+            let mut v = Xvec::new();
+            for x in lead {
+                v.push_back_mut(Cell::Int(*x as Xint));
+            }
+            // the split byte sits at bit 3 of a junk-filled buffer: both pieces are unaligned slices
+            let buf = Bitstr::from(embed_buf(&[b], 3, 1));
+            v.push_back_mut(Cell::from(buf.substr(3, 3 + cut).expect("substr")));
+            v.push_back_mut(Cell::from(buf.substr(3 + cut, 11).expect("substr")));
+            let mut inner = Xvec::new();
+            for x in rest {
+                inner.push_back_mut(Cell::Int(*x as Xint));
+            }
+            v.push_back_mut(Cell::from(inner));
+            Some(Cell::from(v))
+        }
     }
 }
 
@@ -219,6 +250,17 @@ fn operand_source(bytes: &[u8], p: Pres) -> Option<String> {
                 None
             }
         }
+        Pres::Pieces { cut } => {
+            let (lead, b, rest) = pieces_of(bytes)?;
+            let bits: String = (0..8).map(|i| if (b >> (7 - i)) & 1 != 0 { 'x' } else { '.' }).collect();
+            Some(format!(
+                "[ {}|{}| |{}| [ {}] ]",
+                lead.iter().map(|x| format!("{} ", x)).collect::<String>(),
+                &bits[..cut],
+                &bits[cut..],
+                rest.iter().map(|x| format!("{} ", x)).collect::<String>()
+            ))
+        }
     }
 }
 
@@ -231,6 +273,8 @@ fn presentations() -> Vec<Pres> {
     }
     v.push(Pres::Vector);
     v.push(Pres::Str);
+    v.push(Pres::Pieces { cut: 4 });
+    v.push(Pres::Pieces { cut: 3 });
     v
 }
 
@@ -720,7 +764,7 @@ pub fn run(cfg: &Cfg) -> i32 {
     let total = n_small + longer.len() + n_all3;
     let pres_all = presentations();
     // every 3-byte string (thorough): aligned, two unaligned offsets and the vector form
-    let pres_3: Vec<Pres> = vec![Pres::Bits { k: 0, junk: 2 }, Pres::Bits { k: 5, junk: 1 }, Pres::Bits { k: 2, junk: 0 }, Pres::Vector];
+    let pres_3: Vec<Pres> = vec![Pres::Bits { k: 0, junk: 2 }, Pres::Bits { k: 5, junk: 1 }, Pres::Bits { k: 2, junk: 0 }, Pres::Vector, Pres::Pieces { cut: 4 }];
     let texts_seen = Mutex::new(Vec::<(Codec, String)>::new());
     let t0 = std::time::Instant::now();
     par_run(cfg.threads, total, 256, |_t, pull| {
